@@ -1145,12 +1145,15 @@ func fmtCommentEndsLine(w *World, r *Report, prop string) {
 			mlTokens = append(mlTokens, lr.Name)
 		}
 	}
-	for _, k := range sortedKeys(bySinkFn) {
-		c := bySinkFn[k]
-		r.fail(ruleML, k+" does not rewrite line breaks that belong to a token", w.instrPos(c), "text that may contain a token spanning several lines ("+strings.Join(mlTokens, ", ")+") reaches "+calleeName(c)+" on its line breaks: the continuation lines of the token are re-indented, i.e. the token's text changes - and changes again on every further pass")
-	}
-	if len(bySinkFn) == 0 {
-		r.pass(ruleML, "no line-break rewriting of multi-line token text", "internal/parser/packet_dsl_formattor.go", strings.Join(mlTokens, ", "))
+	keyML := "token text that may span lines keeps its line breaks as written"
+	if len(bySinkFn) > 0 {
+		var where []string
+		for _, k := range sortedKeys(bySinkFn) {
+			where = append(where, fmt.Sprintf("%s in %s (%s)", calleeName(bySinkFn[k]), k, w.instrPos(bySinkFn[k])))
+		}
+		r.fail(ruleML, keyML, w.instrPos(bySinkFn[sortedKeys(bySinkFn)[0]]), "text that may contain a token spanning several lines ("+strings.Join(mlTokens, ", ")+") reaches, on its line breaks, "+strings.Join(where, "; ")+": the continuation lines of the token are re-indented, i.e. the token's text changes - and changes again on every further pass")
+	} else {
+		r.pass(ruleML, keyML, "internal/parser/packet_dsl_formattor.go", strings.Join(mlTokens, ", "))
 	}
 	r.note("%s: %d hidden-token values, %d function contexts, %d concatenations / writes judged", rule, len(fs.hidden), len(fs.order), nChecked)
 	if !sawComment {
